@@ -1177,7 +1177,7 @@ def check(ctx):
     ctx.extra_cov["exhaustive_domain"] = f"all canonical CFGs with <= {nmax} blocks, out-degree <= 2"
     if not ctx.thorough:
         four = list(canon_cfgs(4))
-        for cfg in ctx.rng.sample(four, 300):
+        for cfg in ctx.rng.sample(four, 200):
             cases.append(capture_cfg("sample:4", cfg))
     lap("exhaustive")
     # 3a. small structured programs: the fragment the relooper handles (class S, <= SMALL blocks) is where a
@@ -1198,7 +1198,7 @@ def check(ctx):
             cases.append(capture_cfg("structured-threaded", t))
     lap("structured")
     # 4. random larger CFGs (reducible and irreducible)
-    for _ in range(1500 if ctx.thorough else 150):
+    for _ in range(1500 if ctx.thorough else 100):
         cases.append(capture_cfg("random", gen_random(ctx.rng)))
     lap("random")
     # 5. C functions through the front-end, with and without optimisation
